@@ -16,7 +16,8 @@ tvars == <<script, makeFault, intrAt, cfault, mpc, cause, propagated, wpc, wk, q
 
 Traces == JsonDeserialize(IOEnv.TRACE_FILE)
 SetOf(s) == {s[i] : i \in DOMAIN s}
-ScriptOf(tr) == [w \in DOMAIN tr.script |-> [tests |-> tr.script[w].tests, raises |-> tr.script[w].raises]]
+ScriptOf(tr) == [w \in DOMAIN tr.script |-> [tests |-> tr.script[w].tests, raises |-> tr.script[w].raises,
+                                              route |-> tr.script[w].route]]
 
 TraceInit ==
     \E n \in DOMAIN Traces :
@@ -24,8 +25,8 @@ TraceInit ==
         /\ InitWith(ScriptOf(Traces[n]), Traces[n].makeFault, Traces[n].intrAt, Traces[n].cfault)
 
 Ev == Traces[tid].ev[l + 1]
-MsgOf(x) == Msg(x.kind, x.w, x.id, x.st, x.sub)
-CEntryOf(x) == [w |-> x.w, id |-> x.id, st |-> x.st, route |-> x.route, ts |-> x.ts]
+MsgOf(x) == Msg(x.kind, x.w, x.id, x.st, x.sub, x.code)
+CEntryOf(x) == [w |-> x.w, id |-> x.id, st |-> x.st, code |-> x.code, sub |-> x.sub, ts |-> x.ts]
 Status(p) == IF p \in {"returned", "raised"} THEN p ELSE "run"
 
 StrictStep ==
